@@ -169,6 +169,19 @@ static void drive_crystals(bool thorough, int part, int np) {
         }
       }
     }
+    // copies, containers and moves of the wrapper object: every one of them must describe the same crystal as the C struct and own storage of its own
+    { int h[3] = {1, 1, 1}; wit_c(w, sizeof w, names[ci], h, 8.0, 0.9, 1.3, nullptr);
+      auto fields = [&](const xrlpp::Crystal::Struct &s) { return s.name == c->name && biteq(s.a, c->a) && biteq(s.b, c->b) && biteq(s.c, c->c) && biteq(s.alpha, c->alpha) && biteq(s.beta, c->beta) && biteq(s.gamma, c->gamma) && biteq(s.volume, c->volume) && s.n_atom == c->n_atom && (int)s.atom.size() == c->n_atom; };
+      double cd = ::Crystal_dSpacing(c, 1, 1, 1, nullptr), cb = ::Bragg_angle(c, 8.0, 1, 1, 1, nullptr); xrlComplex cf = ::Crystal_F_H_StructureFactor(c, 8.0, 1, 1, 1, 0.9, 1.3, nullptr);
+      auto behaves = [&](xrlpp::Crystal::Struct &s) { std::complex<double> f = s.F_H_StructureFactor(8.0, 1, 1, 1, 0.9, 1.3); return fields(s) && biteq(s.dSpacing(1, 1, 1), cd) && biteq(s.Bragg_angle(8.0, 1, 1, 1), cb) && biteq(f.real(), cf.re) && biteq(f.imag(), cf.im); };
+      bool same = false; std::string what; long l0 = W_live;
+      int xc = guarded([&] {
+        xrlpp::Crystal::Struct y(x);                                          // copy construction
+        std::vector<xrlpp::Crystal::Struct> v; v.push_back(xrlpp::Crystal::GetCrystal(names[ci])); v.push_back(x); v.push_back(y);    // temporaries into a container (moved if the class can move), reallocation of the container
+        xrlpp::Crystal::Struct z(std::move(v[1]));                            // explicit move (a copy if the class cannot move)
+        same = behaves(y) && behaves(v[0]) && behaves(v[2]) && behaves(z) && behaves(x);
+      }, what);
+      observe("Crystal::Struct(copy,move,container)", "", true, -1, "", same, xc, what, 0, W_live - l0, w); }
     // the public constructor: a Struct built field by field must behave like a C struct with the same fields (here with a volume of the caller's choosing)
     { Crystal_Struct *c2 = ::Crystal_MakeCopy(c, nullptr); c2->volume = c->volume * 1.25;
       xrlpp::Crystal::Struct y(std::string(names[ci]) + "_built", x.a, x.b, x.c, x.alpha, x.beta, x.gamma, x.volume * 1.25, x.atom);
